@@ -98,6 +98,7 @@ def getLengthI {α : Type} (d : α → α → Rat) (f : Rat → α) (ts : List R
   if 0 ≤ a ∧ a ≤ 1 ∧ 0 ≤ b ∧ b ≤ 1 then some (polyLenD d ((lengthParams ts a b).map f)) else none
 
 abbrev V := Vec Rat
+instance : Inhabited V := ⟨⟨0, 0, 0⟩⟩
 
 def lerpV (p q : V) (lam : Rat) : V :=
   ⟨p.x + lam * (q.x - p.x), p.y + lam * (q.y - p.y), p.z + lam * (q.z - p.z)⟩
@@ -107,6 +108,36 @@ def lerp : List Rat → List V → Rat → Option V
   | t0 :: t1 :: ts, p0 :: p1 :: ps, t =>
       if t0 ≤ t ∧ t ≤ t1 then some (lerpV p0 p1 ((t - t0) / (t1 - t0))) else lerp (t1 :: ts) (p1 :: ps) t
   | _, _, _ => none
+
+/-! ### closest parameter of the linear interpolant (repaired code: exact projection to every segment) -/
+
+def dist2 (p q : V) : Rat := Vec.nsq (Vec.sub p q)
+
+/-- `np.clip(x, 0, 1)` -/
+def clip01 (x : Rat) : Rat := if x < 0 then 0 else if 1 < x then 1 else x
+
+/-- relative position on the segment `p0 → p1` of the projection of `q`, limited to the segment:
+    `clip(sum((point - start) * vector) / where(length > 0, length, 1), 0, 1)` -/
+def segRatio (p0 p1 q : V) : Rat :=
+  let v := Vec.sub p1 p0
+  let l := Vec.nsq v
+  clip01 (Vec.dot (Vec.sub q p0) v / (if 0 < l then l else 1))
+
+/-- squared distance of `q` to the segment `p0 → p1` -/
+def segDist2 (p0 p1 q : V) : Rat := dist2 (lerpV p0 p1 (segRatio p0 p1 q)) q
+
+/-- the segments of a polyline -/
+def segments (ps : List V) : List (V × V) := ps.zip ps.tail
+
+/-- index of the segment that is closest to `q` (`np.argmin`, first minimum) -/
+def closestSeg (ps : List V) (q : V) : Nat := argmin ((segments ps).map (fun s => segDist2 s.1 s.2 q))
+
+/-- `LinearInterpolatedCurve.get_closest_param(point)` -/
+def closestParamL (ts : List Rat) (ps : List V) (q : V) : Rat :=
+  let i := closestSeg ps q
+  let t0 := ts.getD i 0
+  let t1 := ts.getD (i + 1) 0
+  t0 + segRatio (ps.getD i default) (ps.getD (i + 1) default) q * (t1 - t0)
 
 /-! ### curve edges -/
 
@@ -119,13 +150,9 @@ def splineEdgeLength {α : Type} (d : α → α → Rat) (v1 v2 : α) (pts : Lis
 
 /-! ### line protocol -/
 
-instance : Inhabited V := ⟨⟨0, 0, 0⟩⟩
-
 def parseVec? (s : String) : Option V := (parseV3? s).map (fun v => ⟨v.x, v.y, v.z⟩)
 def showVec (v : V) : String := s!"{showRat v.x},{showRat v.y},{showRat v.z}"
 def parseVecs? (s : String) : Option (List V) := (s.splitOn ";").mapM parseVec?
-
-def dist2 (p q : V) : Rat := Vec.nsq (Vec.sub p q)
 
 /-- distance oracle of the driver: a double-precision square root of the exact squared distance (re-checked) -/
 def distQ (p q : V) : Rat := sqrtQ (dist2 p q)
@@ -202,6 +229,19 @@ def handleILen (args : List String) : Option String :=
               if distOk eps l then some s!"ok {showRat (polyLenD distQ l)} {l.length - 2}" else some "badwit"
   | _ => none
 
+/-- `c16.lclosest p0;p1;… q eps` → `ok <segment> <parameter> <squared distance>` | `badwit`
+    (LinearInterpolatedCurve.get_closest_param; the parameter uses the chord-length knots of the distance oracle) -/
+def handleLClosest (args : List String) : Option String :=
+  match args with
+  | [pts, q, eps] => do
+      let pts ← parseVecs? pts; let q ← parseVec? q; let eps ← parseRat? eps
+      if pts.length < 2 then none
+      else if !distOk eps pts then some "badwit"
+      else
+        let i := closestSeg pts q
+        some s!"ok {i} {showRat (closestParamL (knotsOf pts) pts q)} {showRat (segDist2 (pts.getD i default) (pts.getD (i + 1) default) q)}"
+  | _ => none
+
 /-- `c16.linspace a b n` → the parameter list of `FunctionCurveBase.discretize` -/
 def handleLinspace (args : List String) : Option String :=
   match args with
@@ -226,6 +266,7 @@ def handle (op : String) (args : List String) : Option String :=
   | "c16.dclosest" => handleDClosest args
   | "c16.ipoint" => handleIPoint args
   | "c16.ilen" => handleILen args
+  | "c16.lclosest" => handleLClosest args
   | "c16.linspace" => handleLinspace args
   | "c16.parray" => handlePArray args
   | _ => none
